@@ -13,6 +13,9 @@ Conventions of the model
 * The six unrolled pixel loops of `Encode` differ only in (`n` = bytes stored per pixel, `k` = bytes
   consumed per pixel): gray8 (1,1), RGBX8 (3,4), NRGBA8 (4,4), gray16 (2,2), RGBX16 (6,8),
   NRGBA16 (8,8).  `pixLoop n k` is that loop; `copyN` is the unrolled `e.buf[ej+i] = row[i]`.
+* `flush` is one Go function; here it is cut into consecutive pieces so that each has a small
+  statement: the `if e.buf[4] == 0x0D {…} else {…}` head stays in `flush`, the rest is
+  `flushTail` = `blockHeader`; `updateAdler32`; `appendAdler`; `appendCRC`; `emit`, in source order.
 * `eiFirst`, `eiLater`, `ejMax` and the CRC table are regenerated from the Go source
   (`Gen/C19_Tables.lean`); the other offsets are the literals of `init`/`flush`.
 * Go `int` is 64-bit; the model uses unbounded `Int`/`Nat` (no overflow for |stride| < 2^39).
